@@ -98,10 +98,10 @@ func c15R1(c *Ctx) {
 		RH = "C15.R1.limit-helpers"
 		RE = "C15.R1.read-error-propagates"
 	)
-	c.Expect(RB, 7)
+	c.Expect(RB, 4) // at least: error parser, two token fetches, one registry/remote reader (copies may be merged into a helper)
 	c.Expect(RS, 3)
 	c.Expect(RH, 2)
-	c.Expect(RE, 10)
+	c.Expect(RE, 7)
 
 	lims := c15Limiters(c.P)
 	isLimiter := map[*ssa.Function]bool{}
@@ -203,6 +203,26 @@ func c15R1(c *Ctx) {
 			for _, call := range CallsTo(f, "(*encoding/json.Decoder).Decode", "io.ReadAll") {
 				r := ErrFlow(call, ErrFlowOpts{})
 				c.Check(RE, FnName(f)+"|"+CalleeName(call), call.Pos(), r.OK, r.How+r.Detail)
+			}
+		}
+	}
+	// decode helpers (given a response or a reader, single result error): their callers return the error too
+	for _, rel := range c15Pkgs {
+		for _, h := range c.P.FuncsOfPkg(rel) {
+			if len(CallsTo(h, "(*encoding/json.Decoder).Decode", "io.ReadAll")) == 0 || !c13ResultsAre(h, [2]string{"", "error"}) ||
+				!(c13HasParam(h, c13PkgHTTP, "Response") || c13HasParam(h, "io", "Reader")) {
+				continue
+			}
+			for _, rel2 := range c15Pkgs {
+				for _, f := range c.P.FuncsOfPkg(rel2) {
+					for _, call := range c13CallsToFn(f, h) {
+						if v := call.Value(); v == nil || ErrNilStatus(v, 0) == NonNil {
+							continue // an error constructor (the error-response parser): nothing to propagate
+						}
+						r := ErrFlow(call, ErrFlowOpts{})
+						c.Check(RE, FnName(f)+"|"+FnName(h), call.Pos(), r.OK, r.How+r.Detail)
+					}
+				}
 			}
 		}
 	}
@@ -768,6 +788,27 @@ func c15IsPageFn(g *ssa.Function) bool {
 	return len(c13SendSites(g)) > 0
 }
 
+// c15FeedsLastParam: a value of vals becomes the `last` query parameter:
+// Values.Set("last", v) in fn, or in a helper fn hands it to (depth).
+func c15FeedsLastParam(fn *ssa.Function, vals map[ssa.Value]bool, depth int) bool {
+	for _, set := range CallsTo(fn, "(net/url.Values).Set", "(net/url.Values).Add") {
+		if k, ok := constString(set.Common().Args[1]); ok && k == "last" && vals[set.Common().Args[2]] {
+			return true
+		}
+	}
+	if depth <= 0 {
+		return false
+	}
+	calls, idxs := c13RespParamCalls(fn, vals)
+	for k, call := range calls {
+		h := StaticCallee(call)
+		if h != fn && c15FeedsLastParam(h, Aliases(h.Params[idxs[k]]), depth-1) {
+			return true
+		}
+	}
+	return false
+}
+
 func c15PageLoops(p *Prog) []c15PageLoop {
 	var out []c15PageLoop
 	for _, f := range p.FuncsOfPkg(c13PkgRemote) {
@@ -847,10 +888,8 @@ func c15R2(c *Ctx) {
 					urlIdx = i
 				}
 			}
-			for _, set := range CallsTo(pl.page, "(net/url.Values).Set") {
-				if k, ok := constString(set.Common().Args[1]); ok && k == "last" && al[set.Common().Args[2]] {
-					lastIdx = i
-				}
+			if c15FeedsLastParam(pl.page, al, 2) {
+				lastIdx = i
 			}
 		}
 		// (1) url advances
@@ -1144,87 +1183,109 @@ func c15R3(c *Ctx) {
 		return f.Parent() == nil && f.Signature.Recv() == nil && ps.Len() == 2 && rs.Len() == 1 &&
 			types.Identical(ps.At(0).Type(), types.Typ[types.String]) && types.Identical(ps.At(1).Type(), types.Typ[types.String]) && types.Identical(rs.At(0).Type(), types.Typ[types.Bool])
 	})
-	for _, f := range c.P.FuncsOfPkg(c13PkgRemote) {
-		fcalls := c13CallsToFn(f, F)
-		if len(fcalls) == 0 {
-			continue
+	isApplied := map[*ssa.Function]bool{}
+	for _, g := range applied {
+		isApplied[g] = true
+	}
+	appliedClass := func(cond ssa.Value) (bool, bool) {
+		call, ok := cond.(*ssa.Call)
+		return ok && isApplied[StaticCallee(call)], false
+	}
+	// okList: every way the list value v (used at `target` in fn) is established is either the filter's
+	// result (directly or through a helper all of whose results are), or — only where the server may have
+	// filtered (conditional) — the raw list on a path behind "no filter requested / server declares it applied".
+	var helperFilters func(h *ssa.Function, conditional bool, depth int) bool
+	var okList func(fn *ssa.Function, v ssa.Value, target ssa.Instruction, conditional, needFiltered bool, depth int) (bool, string)
+	isFiltered := func(v ssa.Value, conditional bool, depth int) bool {
+		call, ok := v.(*ssa.Call)
+		if !ok {
+			return false
 		}
+		h := StaticCallee(call)
+		if h == F {
+			return true
+		}
+		return h != nil && depth > 0 && inModule(h) && len(h.Blocks) > 0 && helperFilters(h, conditional, depth-1)
+	}
+	okList = func(fn *ssa.Function, v ssa.Value, target ssa.Instruction, conditional, needFiltered bool, depth int) (bool, string) {
+		// the artifact type the function filters by: the string handed to the filter or to a filtering helper
+		at := map[ssa.Value]bool{}
+		for _, call := range Calls(fn, func(string) bool { return true }) {
+			h := StaticCallee(call)
+			if h == nil || !(h == F || (depth > 0 && inModule(h) && len(h.Blocks) > 0 && h != fn && helperFilters(h, conditional, depth-1))) {
+				continue
+			}
+			for _, a := range call.Common().Args {
+				if types.Identical(a.Type().Underlying(), types.Typ[types.String]) {
+					for x := range Aliases(a) {
+						at[x] = true
+					}
+				}
+			}
+		}
+		var skip []Edge
+		if conditional {
+			skip = c13FactEdgesOfConds(fn, c13OrClass(c13EmptyStringClass(at), appliedClass))
+		}
+		sawFiltered := false
+		for _, lf := range c13Leaves(v) {
+			if isFiltered(lf.Val, conditional, depth) {
+				sawFiltered = true
+				continue
+			}
+			if !conditional {
+				return false, "an unfiltered list can be delivered"
+			}
+			if c13ChainReach(fn.Blocks[0], 0, lf.Edges, target, newCut().Edges(skip...)) {
+				return false, "the unfiltered list is delivered on a path where a filter was requested and the server did not declare it applied"
+			}
+		}
+		if needFiltered && !sawFiltered {
+			return false, "the filter's result is never delivered"
+		}
+		return true, ""
+	}
+	memo := map[string]bool{}
+	helperFilters = func(h *ssa.Function, conditional bool, depth int) bool {
+		rs := h.Signature.Results()
+		if rs.Len() != 1 || !isDescSlice(rs.At(0).Type()) || h == F {
+			return false
+		}
+		key := fmt.Sprintf("%p|%v|%d", h, conditional, depth)
+		if v, ok := memo[key]; ok {
+			return v
+		}
+		memo[key] = false
+		ok := len(Returns(h)) > 0
+		some := false
+		for _, r := range Returns(h) {
+			if o, _ := okList(h, r.Results[0], r, conditional, false, depth); !o {
+				ok = false
+			}
+			for _, lf := range c13Leaves(r.Results[0]) {
+				if isFiltered(lf.Val, conditional, depth) {
+					some = true
+				}
+			}
+		}
+		memo[key] = ok && some
+		return ok && some
+	}
+	for _, f := range c.P.FuncsOfPkg(c13PkgRemote) {
 		var cbs []ssa.CallInstruction
 		for _, call := range Calls(f, func(n string) bool { return strings.HasPrefix(n, "dyn:param:") }) {
 			if len(call.Common().Args) == 1 && isDescSlice(call.Common().Args[0].Type()) {
 				cbs = append(cbs, call)
 			}
 		}
-		if len(cbs) == 0 {
+		if len(cbs) == 0 || isApplied[f] || f == F {
 			continue
 		}
-		fn := FnName(f)
-		filtered := map[ssa.Value]bool{}
-		for _, fc := range fcalls {
-			filtered[fc.Value()] = true
-		}
-		// edges on which filtering may be skipped: no filter requested, or the server declares it applied
-		// (also when these conditions are first combined in a boolean variable)
-		at := fcalls[0].Common().Args[1]
+		// functions that merely forward lists they were given (no exchange, no fetch of an index) are not listing ends
 		conditional := len(c13SendSites(f)) > 0 // the API page may rely on the server; the tag-schema path may not
-		isApplied := map[*ssa.Function]bool{}
-		for _, g := range applied {
-			isApplied[g] = true
-		}
-		appliedClass := func(cond ssa.Value) (bool, bool) {
-			call, ok := cond.(*ssa.Call)
-			return ok && isApplied[StaticCallee(call)], false
-		}
-		var skip []Edge
-		if conditional {
-			skip = c13FactEdgesOfConds(f, c13OrClass(c13EmptyStringClass(c13AliasSet(at)), appliedClass))
-		}
+		fn := FnName(f)
 		for _, cb := range cbs {
-			ok := true
-			why := ""
-			undecided := false
-			arg := cb.Common().Args[0]
-			// every value the callback may receive: the filter's result, or (API page only) the raw list on a skip edge
-			roots := Roots(arg)
-			for _, r := range roots {
-				if filtered[r] {
-					continue
-				}
-				if !conditional {
-					ok, why = false, "the callback can receive an unfiltered list"
-				}
-			}
-			if phi, isPhi := arg.(*ssa.Phi); isPhi && conditional {
-				for i, e := range phi.Edges {
-					if c13RootsIn(e, filtered) {
-						continue
-					}
-					edge := Edge{phi.Block().Preds[i], phi.Block()}
-					inSkip := false
-					for _, s := range skip {
-						if s == edge {
-							inSkip = true
-						}
-					}
-					if !inSkip && reach(f.Blocks[0], 0, edge.From.Instrs[len(edge.From.Instrs)-1], newCut().Edges(skip...)) {
-						ok, why = false, "the unfiltered list reaches the callback on a path where a filter was requested and the server did not declare it applied"
-						for _, pb := range append([]*ssa.BasicBlock{edge.From}, edge.From.Preds...) {
-							if iff, isIf := pb.Instrs[len(pb.Instrs)-1].(*ssa.If); isIf {
-								cond, _, _ := ifEdges(iff)
-								if _, isPhi := cond.(*ssa.Phi); isPhi {
-									undecided = true // decision kept in a boolean variable: needs path sensitivity
-								}
-							}
-						}
-					}
-				}
-			} else if conditional && !c13RootsIn(arg, filtered) {
-				ok, why = false, "the callback never receives the filter's result"
-			}
-			if !ok && undecided {
-				c.Undecided(R3, fn+"|callback-gets-filtered", cb.Pos(), "the decision to filter is kept in a boolean variable; this path-insensitive rule cannot relate it to the skip conditions")
-				continue
-			}
+			ok, why := okList(f, cb.Common().Args[0], cb.(ssa.Instruction), conditional, true, 2)
 			c.Check(R3, fn+"|callback-gets-filtered", cb.Pos(), ok, ifelse(ok, "the callback receives the filtered list unless no filter was requested or the server applied it", why))
 		}
 	}
@@ -1288,38 +1349,40 @@ func c15R4(c *Ctx) {
 			continue
 		}
 		tagAl := Aliases(tag)
-		afterClass := func(cond ssa.Value) (bool, bool) {
-			op, other, ok := c13CmpNorm(cond, tagAl)
-			if !ok || !lastAl[other] {
-				return false, false
-			}
-			return op == token.GTR, op == token.LEQ
-		}
-		after := c13FactEdgesOfConds(f, afterClass)
-		afterOrNoLast := c13FactEdgesOfConds(f, c13OrClass(afterClass, c13EmptyStringClass(lastAl)))
-		notDigest := c13FactEdgesOfConds(f, func(cond ssa.Value) (bool, bool) {
-			op, other, ok := c13CmpNorm(cond, tagAl)
-			if !ok {
-				return false, false
-			}
-			if call, isCall := other.(*ssa.Call); isCall && CalleeName(call) == "(digest.Digest).String" {
-				return op == token.NEQ, op == token.EQL
-			}
-			return false, false
-		})
-		hasAfterCmp := len(after) > 0
-		if !hasAfterCmp { // the comparison may only exist as a stored boolean
-			AllInstrs(f, func(in ssa.Instruction) {
-				if v, ok := in.(ssa.Value); ok {
-					if t, fl := afterClass(v); t || fl {
-						hasAfterCmp = true
-					}
+		// classifier factories over (tag values, last values), so that predicate helpers can be summarised
+		afterBase := func(_ *ssa.Function, sets []map[ssa.Value]bool) c13CondClass {
+			return func(cond ssa.Value) (bool, bool) {
+				op, other, ok := c13CmpNorm(cond, sets[0])
+				if !ok || !sets[1][other] {
+					return false, false
 				}
-			})
+				return op == token.GTR, op == token.LEQ
+			}
 		}
+		afterOrNoLastBase := func(fn *ssa.Function, sets []map[ssa.Value]bool) c13CondClass {
+			return c13OrClass(afterBase(fn, sets), c13EmptyStringClass(sets[1]))
+		}
+		notDigestBase := func(_ *ssa.Function, sets []map[ssa.Value]bool) c13CondClass {
+			return func(cond ssa.Value) (bool, bool) {
+				op, other, ok := c13CmpNorm(cond, sets[0])
+				if !ok {
+					return false, false
+				}
+				if call, isCall := other.(*ssa.Call); isCall && CalleeName(call) == "(digest.Digest).String" {
+					return op == token.NEQ, op == token.EQL
+				}
+				return false, false
+			}
+		}
+		sets := []map[ssa.Value]bool{tagAl, lastAl}
+		afterClass := afterBase(f, sets)
+		after := c13FactEdgesOfConds(f, c13PredicateClass(afterBase, f, sets, 2))
+		afterOrNoLast := c13FactEdgesOfConds(f, c13PredicateClass(afterOrNoLastBase, f, sets, 2))
+		notDigest := c13FactEdgesOfConds(f, c13PredicateClass(notDigestBase, f, sets, 2))
+		_, _ = after, afterClass
 		_ = zeroLast
 		okAfter := MustPass(ap.(ssa.Instruction), newCut().Edges(afterOrNoLast...))
-		c.Check(R4, fn+"|only-tags-after-last", ap.Pos(), okAfter && hasAfterCmp, ifelse(okAfter && hasAfterCmp, "a tag is listed only if last == \"\" or tag > last", "a tag not after `last` can be listed"))
+		c.Check(R4, fn+"|only-tags-after-last", ap.Pos(), okAfter && len(afterOrNoLast) > 0, ifelse(okAfter && len(afterOrNoLast) > 0, "a tag is listed only if last == \"\" or tag > last", "a tag not after `last` can be listed"))
 		okDg := len(notDigest) > 0 && MustPass(ap.(ssa.Instruction), newCut().Edges(notDigest...))
 		c.Check(R4, fn+"|digest-entries-skipped", ap.Pos(), okDg, ifelse(okDg, "entries whose name is their own digest are skipped", "digest-named entries of the tag map can be listed as tags"))
 	}
